@@ -67,5 +67,20 @@ CLAIMED['C08'] = dict(
     technique="TLA+ transcription of the merge loops checked by TLC against bag algebra; spec->code case replay; "
               "code->spec trace validation by TLC",
     design="3/C08")
+CLAIMED['C10'] = dict(
+    text="TLC checks Dedup.tla - the previous/current scans of iterduplicates, iterunique, DistinctView (with and "
+         "without count) and iterconflicts, one action per loop iteration incl. first/last-row handling - against the "
+         "key-multiplicity definitions (DedupDefs.tla): duplicates = multiplicity > 1, unique = 1, distinct = first per "
+         "key, counts add up to nrows, conflicts within disagreeing duplicate groups, duplicates/unique partition the "
+         "table, isunique <=> no duplicates, no crash; the model of the code as found is kept as a sensitivity run "
+         "(TLC reports the empty-table crash of distinct(count)). Every TLC-generated table x key form (single, compound, "
+         "None) is replayed on the real functions under value profiles / buffersizes / presorted; Hypothesis tables are "
+         "validated by TLC (DedupTrace).",
+    note="Rectangular tables as stated; bounds <= 5 rows in the scan model, <= 4 rows in generated cases, <= 25 rows in "
+         "traces; the exact rows reported by conflicts() (adjacent-pair scan) are model-level (DRIFT), its soundness "
+         "clause is property-level.",
+    technique="TLA+ transcription of the scan loops checked by TLC against multiplicity definitions; spec->code case "
+              "replay; code->spec trace validation by TLC",
+    design="3/C10")
 
 NOT_APPLICABLE = {}
